@@ -44,7 +44,10 @@ void h_encrypt_decrypt(void)
 	SM2_KEY key; mk_key(&key, d);
 	uint8_t M[ML], back[ML + 8]; for (int i = 0; i < ML; i++) M[i] = nondet_u8();
 	SM2_CIPHERTEXT C; memset(&C, 0, sizeof(C));
-	int which = nondet_bool(), ret;
+#ifndef WHICH
+#define WHICH 1
+#endif
+	const int which = WHICH; int ret;
 	uint64_t k;
 	if (which) { ret = sm2_do_encrypt(&key, M, ML, &C); k = g_last_k; }
 	else {
@@ -84,6 +87,7 @@ void h_decrypt_sound(void)
 	uint8_t out[ML + 8]; size_t outlen = 0;
 	int ret = sm2_do_decrypt(&key, &C, out, &outlen);
 	if (ret == 1) {
+		V_COVER("accept path 1");
 		/* C1 must be a finite point of the curve: find it in the tables */
 		uint64_t x = 0, y = 0; for (int i = 24; i < 32; i++) { x = (x << 8) | cb[i]; y = (y << 8) | cb[32 + i]; }
 		int j = -1; for (unsigned i = 1; i < Q; i++) if (g_XT[i] == x && g_YT[i] == y) j = (int)i;
